@@ -35,7 +35,7 @@ type ReadCase struct {
 
 var readNames = []string{
 	// inside logs
-	"a.log", "empty.log", "sub/inner.log", "./a.log", "sub/../a.log", "sub//inner.log", "{cur}", "../logs/a.log", "sub/../sub/inner.log",
+	"dotnet-profiler.log", "a.log", "empty.log", "sub/inner.log", "./a.log", "sub/../a.log", "sub//inner.log", "{cur}", "../logs/a.log", "sub/../sub/inner.log",
 	// not a readable file
 	"missing.log", "sub", ".", "a.log/", "sub/missing.log", "{abs}", "..\\secret.txt", "a.log\x00",
 	// outside logs
@@ -98,6 +98,23 @@ func runRead(c ReadCase) *pbt.Result {
 		must(os.WriteFile(filepath.Join(home, sib), fileBody("ARCHIVED", size(2)), 0o644))
 	}
 	must(os.WriteFile(filepath.Join(home, "logsecret.txt"), fileBody("SECRET2", size(3)), 0o644))
+	// the host also runs the .NET profiler, whose log lives under %ProgramData%/WhaTap (the file-listing call mentions it
+	// by its bare name): the read call still serves files of the logs directory only (seed C17-s23). In half of the cases
+	// the logs directory has a file of that name of its own.
+	must(os.MkdirAll(filepath.Join(out, "WhaTap"), 0o755))
+	must(os.WriteFile(filepath.Join(out, "WhaTap", "dotnet-profiler.log"), fileBody("DOTNET-PROFILER-OUTSIDE", size(2)+50), 0o644))
+	oldPD, hadPD := os.LookupEnv("ProgramData")
+	os.Setenv("ProgramData", out)
+	defer func() {
+		if hadPD {
+			os.Setenv("ProgramData", oldPD)
+		} else {
+			os.Unsetenv("ProgramData")
+		}
+	}()
+	if size(0)%2 == 0 {
+		must(os.WriteFile(filepath.Join(logs, "dotnet-profiler.log"), fileBody("own", size(1)+30), 0o644))
+	}
 	l.Error("conn fail ", "{m1}", "first line", ";end")
 	cur := fmt.Sprintf("wt-boot-%s.log", ymd(9000))
 
@@ -215,7 +232,7 @@ func drawRead(t *rapid.T) ReadCase {
 
 var specRead = pbt.Register(pbt.Spec[ReadCase]{
 	Prop: "C17", Name: "read-window",
-	Rule:  "a fresh home with files of generated sizes (ASCII and multi-byte UTF-8 lines alternating) inside logs/ (plain, empty, nested, the logger's current file) and outside it (home/secret.txt, home/whatap.conf, a sibling directory); 1-10 Read(name, endpos, length) calls with names from a catalogue of 34 templates (inside, unreadable, and names with .. that resolve outside logs/), end positions negative / 0 / around the file size / beyond / extreme, lengths 1.. around the size .. extreme; one read in four is repeated right away after the file under that name was replaced by another file or removed; oracle: a name that resolves lexically outside <home>/logs returns nil; otherwise nil or Text == content[Before:Before+len(Text)] with len(Text) <= length; non-trivial = at least one non-empty window served and at least one name pointing at an existing file outside logs/; distinct by case",
+	Rule:  "a fresh home with files of generated sizes (ASCII and multi-byte UTF-8 lines alternating) inside logs/ (plain, empty, nested, the logger's current file, in half of the cases a dotnet-profiler.log) and outside it (home/secret.txt, home/whatap.conf, a sibling directory, and $ProgramData/WhaTap/dotnet-profiler.log with ProgramData set); 1-10 Read(name, endpos, length) calls with names from a catalogue of 35 templates (inside, unreadable, and names with .. that resolve outside logs/), end positions negative / 0 / around the file size / beyond / extreme, lengths 1.. around the size .. extreme; one read in four is repeated right away after the file under that name was replaced by another file or removed; oracle: a name that resolves lexically outside <home>/logs returns nil; otherwise nil or Text == content[Before:Before+len(Text)] with len(Text) <= length; non-trivial = at least one non-empty window served and at least one name pointing at an existing file outside logs/; distinct by case",
 	Quick: 1500, Thorough: 60000,
 	Draw: drawRead,
 	Run:  runRead,
